@@ -634,6 +634,12 @@ func c06Scenarios(thorough bool) []c06Scenario {
 		{P(E(1)), T(L(4)), T(L(5)), T(L(0))},
 		{P(E(0)), T(D(2)), T(D(2))},
 		{P(S(8)), T(D(3)), T(S(3072))},
+		// readers only: calls that touch the same pooled or lazily built shared state
+		{T(D(2)), T(D(3))},
+		{T(D(2)), T(D(2))},
+		{T(D(4)), T(D(4))},
+		{T(D(4)), T(R(2))},
+		{T(D(6)), T(D(0)), T(D(7))},
 		{P(S(8)), T(D(6)), T(S(3072))},
 		{T(D(7)), T(S(5))},
 		{T(D(6), D(7)), T(S(8), S(5))},
@@ -703,6 +709,14 @@ func c06Scenarios(thorough bool) []c06Scenario {
 				if (isWriter(a) || isWriter(b) || isWriter(b2)) && !dupExt(a, b, b2) {
 					out = append(out, c06Scenario{T(a), T(b, b2)})
 				}
+			}
+		}
+	}
+	// all reader-reader pairs (pools, lazily built caches)
+	for i, a := range alphabet {
+		for _, b := range alphabet[i:] {
+			if !isWriter(a) && !isWriter(b) {
+				out = append(out, c06Scenario{T(a), T(b)})
 			}
 		}
 	}
